@@ -1,4 +1,4 @@
 SPECIFICATION TraceSpec
-INVARIANT I17
+INVARIANT J17
 POSTCONDITION TraceAccepted
 CHECK_DEADLOCK FALSE
